@@ -38,6 +38,10 @@ func VerifC15Wire(writes int, level int) {
 		total += sizes[i]
 	}
 	backendBody := verifPayload[:total]
+	overDeclare := 0
+	if declareLength && verifrt.Bool("declaredLengthExceedsBody") {
+		overDeclare = 7
+	}
 
 	rec := verifNewRecorder()
 	h := mw(http.HandlerFunc(func(w http.ResponseWriter, r *http.Request) {
@@ -48,7 +52,8 @@ func VerifC15Wire(writes int, level int) {
 			w.Header().Set("Content-Encoding", "br")
 		}
 		if declareLength {
-			w.Header().Set("Content-Length", strconv.Itoa(total))
+			// a HEAD-like / cut-short exchange declares more than it delivers
+			w.Header().Set("Content-Length", strconv.Itoa(total+overDeclare))
 		}
 		if explicit {
 			w.WriteHeader(status)
@@ -77,7 +82,7 @@ func VerifC15Wire(writes int, level int) {
 	} else {
 		verifrt.Assert(string(rec.body) == backendBody, "not labelled gzip on the wire: the body is byte-identical to the backend's body")
 		if cl := rec.wire.Get("Content-Length"); cl != "" {
-			verifrt.Assert(cl == strconv.Itoa(len(rec.body)), "a Content-Length on the wire equals the number of body bytes")
+			verifrt.Assert(cl == strconv.Itoa(total+overDeclare), "an uncompressed response keeps the backend's Content-Length")
 		}
 		if preEncoded {
 			verifrt.Assert(enc == "br", "an encoding set by the backend is preserved")
